@@ -50,13 +50,18 @@ pub fn all_flag_cfgs(offsets: &[u16], notify_ops: bool, legacy_too: bool) -> Vec
 
 pub fn run_plans(check: &mut Check, plans: &[Plan], wall_budget: Duration) {
     let start = std::time::Instant::now();
+    let total: usize = plans.iter().map(|p| p.cfgs.len()).sum();
+    let mut done = 0usize;
     for p in plans {
         for cfg in &p.cfgs {
             let part = label(p.n, cfg);
             let m = model_for(p.n, *cfg).expect("unsupported N");
             let mut bc = BfsConfig::new(&part, p.depth);
+            // Each part gets an equal share of what is left of the budget.
             let left = wall_budget.saturating_sub(start.elapsed());
-            bc.wall_cap = left.max(Duration::from_secs(2));
+            bc.wall_cap = (left / (total - done).max(1) as u32).max(Duration::from_secs(2));
+            bc.state_cap = 6_000_000;
+            done += 1;
             bc.focus = Some(check.prop);
             let st = bfs::explore(&bc, m.as_ref());
             check.add_bfs(&part, &st);
@@ -114,9 +119,9 @@ pub fn tier_plans(tier: Tier, notify_ops: bool) -> Vec<Plan> {
     };
     match tier {
         Tier::Quick => vec![
-            Plan { n: 1, depth: 8, cfgs: all_flag_cfgs(&wrap_offs(8), notify_ops, true) },
-            Plan { n: 2, depth: 7, cfgs: all_flag_cfgs(&wrap_offs(7), notify_ops, true) },
-            Plan { n: 4, depth: 5, cfgs: all_flag_cfgs(&wrap_offs(5), notify_ops, false) },
+            Plan { n: 1, depth: if notify_ops { 10 } else { 13 }, cfgs: all_flag_cfgs(&[0, 65533], notify_ops, true) },
+            Plan { n: 2, depth: if notify_ops { 7 } else { 9 }, cfgs: all_flag_cfgs(&[0, 65533], notify_ops, true) },
+            Plan { n: 4, depth: if notify_ops { 4 } else { 5 }, cfgs: all_flag_cfgs(&[0, 65534], notify_ops, false) },
         ],
         Tier::Thorough => vec![
             Plan { n: 1, depth: 12, cfgs: all_flag_cfgs(&[0, 65535, 65534, 65532, 65530, 65526], notify_ops, true) },
